@@ -1298,7 +1298,8 @@ type traceEnt struct {
 }
 
 type ssRun struct {
-	trace []traceEnt
+	trace       []traceEnt
+	setupFailed bool
 }
 
 var errTier = fmt.Errorf("tier error")
@@ -1335,11 +1336,16 @@ func (a *authImpl) Serve(c *aries.C) error {
 func (a *authImpl) Setup(c *aries.C) error {
 	a.r.trace = append(a.r.trace, traceEnt{"authSetup", c.User, c.UserLevel})
 	if a.setup == "err" {
+		a.r.setupFailed = true
 		return errSetup
 	}
-	if p := strings.Split(a.setup, ":"); len(p) == 3 && p[0] == "set" {
+	if p := strings.Split(a.setup, ":"); len(p) == 3 && (p[0] == "set" || p[0] == "seterr") {
 		l, _ := strconv.Atoi(p[2])
 		c.User, c.UserLevel = unhex(p[1]), l
+		if p[0] == "seterr" { // an Auth that applies the claims before it verifies them
+			a.r.setupFailed = true
+			return errSetup
+		}
 	}
 	return nil
 }
@@ -1429,6 +1435,22 @@ func (e *env) runSvc(ws []string) string {
 	line := "svc " + strings.Join(ws, " ")
 	var tr []string
 	// direct oracle: the tier rules of the property
+	// from the text: a request whose Auth.Setup failed is not dispatched to any tier
+	if run.setupFailed {
+		after := false
+		for _, t := range run.trace {
+			if t.tier == "authSetup" {
+				after = true
+			} else if after {
+				e.fail("served-after-failed-auth-setup", fmt.Sprintf("Auth.Setup returned an error (leaving c.User=%q, level %d) and the %s tier was invoked all the same; outcome %s",
+					c.User, c.UserLevel, t.tier, out), []string{line})
+				break
+			}
+		}
+		if out != "err" && out != "panic" {
+			e.fail("served-after-failed-auth-setup", fmt.Sprintf("Auth.Setup returned an error and the service set answered %s instead of that error", out), []string{line})
+		}
+	}
 	gateAdmin := false // internal: value of the admin predicate when the gate was passed
 	for i, t := range run.trace {
 		tr = append(tr, fmt.Sprintf("%s@%s@%d", t.tier, hexs(t.user), t.level))
@@ -2157,13 +2179,13 @@ func genSvc(s *sink, r *hx.Rand, thorough bool) {
 	levels := []int{0, 1}
 	adms := []string{"default", "true", "false", "lvl2", "anon", "usera"}
 	auths := []string{"miss", "nil"}
-	setups := []string{"keep", "set:" + hexs("a") + ":1", "set:-:5"}
+	setups := []string{"keep", "set:" + hexs("a") + ":1", "set:-:5", "err", "seterr:" + hexs("a") + ":1"}
 	tk := []string{"miss", "ok"}
 	signins := []string{"nil"}
 	if thorough {
 		levels = []int{-1, 0, 1, 2}
 		auths = []string{"miss", "nil", "ok", "err"}
-		setups = append(setups, "err", "set:"+hexs("a")+":0", "set:-:0")
+		setups = append(setups, "seterr:"+hexs("a")+":0", "seterr:-:3", "set:"+hexs("a")+":0", "set:-:0")
 		tk = []string{"nil", "miss", "ok", "err"}
 		signins = []string{"nil", "ok"}
 	}
@@ -2200,7 +2222,7 @@ func genSvc(s *sink, r *hx.Rand, thorough bool) {
 		n = 300000
 	}
 	allT := []string{"nil", "miss", "ok", "err", "missset:-:0", "missset:" + hexs("a") + ":0", "missset:" + hexs("a") + ":3", "missset:-:3", "miss", "miss"}
-	allSetup := []string{"keep", "err", "set:" + hexs("a") + ":1", "set:-:5", "set:" + hexs("a") + ":0", "set:-:0", "set:" + hexs("b") + ":2"}
+	allSetup := []string{"keep", "err", "seterr:" + hexs("a") + ":2", "seterr:" + hexs("b") + ":0", "seterr:-:1", "set:" + hexs("a") + ":1", "set:-:5", "set:" + hexs("a") + ":0", "set:-:0", "set:" + hexs("b") + ":2"}
 	for i := 0; i < n; i++ {
 		s.add(line(hx.Pick(r, modes), hx.Pick(r, paths), hx.Pick(r, users), hx.Pick(r, []int{-1, 0, 1, 2}), hx.Pick(r, adms),
 			hx.Pick(r, []string{"miss", "miss", "miss", "nil", "ok", "err", "missset:" + hexs("b") + ":1"}), hx.Pick(r, allSetup),
@@ -2414,6 +2436,102 @@ func genHeaders(s *sink, r *hx.Rand, thorough bool) {
 	s.flush()
 }
 
+// genDots: request paths whose segments are ".", "..", "...", "%2e%2e", "a."
+// next to ordinary ones.  Routing is on the raw segments: nothing resolves
+// them, so "/b/../a/x" is under "b" (if anything), never under "a".
+func genDots(s *sink, r *hx.Rand, thorough bool) {
+	s.flush()
+	s.stream = "dot-segments"
+	segs := []string{"a", "b", ".", "..", "...", "%2e%2e", "a."}
+	depth := 3
+	if thorough {
+		depth = 4
+	}
+	var rel []string
+	level := []string{""}
+	for d := 1; d <= depth; d++ {
+		var next []string
+		for _, p := range level {
+			for _, sg := range segs {
+				q := sg
+				if p != "" {
+					q = p + "/" + sg
+				}
+				next = append(next, q)
+			}
+		}
+		rel = append(rel, next...)
+		level = next
+	}
+	var paths []string
+	for i, p := range rel {
+		paths = append(paths, "/"+p)
+		if i%3 == 0 {
+			paths = append(paths, "/"+p+"/")
+		}
+		if i%7 == 0 {
+			paths = append(paths, p)
+		}
+	}
+	paths = append(paths, "/..", "/../", "/a/..//b", "//../a", "/a/./b/../../b", "/.", "/./")
+	rq := showReqs(routerReqs(paths, []string{"GET"}))
+	mp := hexList(paths)
+	pool := []string{"a", "b", "a/b", "b/a", "..", "a/..", "."}
+	kinds := []rReg{{kind: "F"}, {kind: "D"}}
+	for k := 1; k <= 2; k++ {
+		tuples(len(pool)*2, k, func(ix []int) {
+			if s.stop {
+				return
+			}
+			var regs []rReg
+			for t, i := range ix {
+				g := kinds[i%2]
+				g.path, g.tag = pool[i/2], t+1
+				regs = append(regs, g)
+			}
+			rs := showRouterRegs(regs)
+			s.add(fmt.Sprintf("router idx=90 def=- regs=%s reqs=%s", rs, rq))
+			if k == 1 {
+				s.add(fmt.Sprintf("nest mode=dir outer=%s scr=a idx=- def=91 regs=%s reqs=%s", hexs("b"), rs, rq))
+				s.add(fmt.Sprintf("chain d1=- d2=- d3=- r1=%s r2=F:62:2,D:612f62:3 r3=D:61:4 reqs=%s", rs, rq))
+			}
+		})
+	}
+	mpool := []string{"/a", "/a/", "/b/", "/a/b", "/..", "/a/..", "/.", "a", "/"}
+	mk := []string{"P", "E", "D"}
+	for k := 1; k <= 2; k++ {
+		tuples(len(mpool)*3, k, func(ix []int) {
+			if s.stop {
+				return
+			}
+			var regs []muxReg
+			for t, i := range ix {
+				regs = append(regs, muxReg{mk[i%3], mpool[i/3], t + 1})
+			}
+			s.add("mux regs=" + showMuxRegs(regs) + " paths=" + mp)
+		})
+	}
+	// ServiceSet: ServeInternal compares c.Path with "/"; the tiers are routers in `chain` above
+	for _, p := range []string{"/.", "/./", "/..", "/a/..", "/a/../", "//", "/%2e%2e", "/x/.."} {
+		for _, mode := range []string{"serve", "internal"} {
+			for _, u := range []string{"", "a"} {
+				s.add(fmt.Sprintf("svc mode=%s path=%s user=%s level=0 adm=default auth=miss setup=keep res=miss guest=ok usr=ok admin=ok signin=ok",
+					mode, hexs(p), hexs(u)))
+			}
+		}
+	}
+	// HostMux: host names are compared as they are
+	hs := []string{"a.com", "a.com.", ".", "..", "a.com/..", "a.com/../b.com", "b.com", "%2e%2e"}
+	for i, a := range hs {
+		for j, b := range hs {
+			if i != j {
+				s.add(fmt.Sprintf("host sets=%s:1,%s:2 reqs=%s", hexs(a), hexs(b), hexList(hs)))
+			}
+		}
+	}
+	s.flush()
+}
+
 func genHost(s *sink) {
 	s.stream = "hostmux-exhaustive"
 	hosts := []string{"a.com", "A.com", "b.com", "a.com:80", "", "a.com."}
@@ -2478,6 +2596,7 @@ func main() {
 	genNest(s, r, false)
 	genChain(s, r, false)
 	genHeaders(s, r, false)
+	genDots(s, r, false)
 	if th {
 		genRoute(s, true)
 		genSeg(s, r, true)
@@ -2485,6 +2604,7 @@ func main() {
 		genRouter(s, r, true)
 		genNest(s, r, true)
 		genChain(s, r, true)
+		genDots(s, r, true)
 		genMux(s, r, true)
 	}
 	rep.Exhaustive = !s.stop
